@@ -55,9 +55,9 @@ Print Assumptions C05_skip_sound.
    implementation's own decisions: on the model's decisions it holds for every input. *)
 Theorem C05_pred : forall sel ms dbg son mint maxt stores o_kept o_lsets,
   match matches_external_labels mname mmatch ms sel with
-  | None => pred_ok (CPrune sel ms dbg son mint maxt stores None [] o_kept o_lsets) = true
+  | None => pred_skip (CPrune sel ms dbg son mint maxt stores None [] o_kept o_lsets) = true
   | Some kept =>
-      pred_ok (CPrune sel ms dbg son mint maxt stores (Some (map mid kept))
+      pred_skip (CPrune sel ms dbg son mint maxt stores (Some (map mid kept))
                  (map (fun s => reason_code (store_matches mname mmatch dbg mint maxt kept (fst s))) stores)
                  o_kept o_lsets) = true
   end.
@@ -74,6 +74,21 @@ Theorem C05_selector_matchers_sound_homogeneous : forall lsets,
   alt_sem (sel_alts n lsets) (lget s n) = true.
 Proof. exact selector_sound_homogeneous. Qed.
 Print Assumptions C05_selector_matchers_sound_homogeneous.
+
+(* With a TSDB selector the extra matchers are generated from the label sets that
+   ProxyStore.matchingStores collects and are sent to EVERY queried store: the KEPT label sets of
+   every queried store are among them (also when all of a store's sets are kept), so for label sets
+   with the same names no series of a kept set of a queried store is rejected by them. *)
+Theorem C05_selector_keeps_queried : forall dbg mint maxt ms (sts : list (nat * store)) i st,
+  In (i, st) sts -> sexts st <> [] -> fst (selector_match true st) = true ->
+  store_matches mname mmatch dbg mint maxt ms st = ROk ->
+  let L := snd (matching_stores mname mmatch true dbg mint maxt ms sts) in
+  (forall l n, In l L -> In n (sel_names L) -> lhas l n = true) ->
+  forall s e n, In e (kept_lsets st) -> extends s e -> In n (sel_names L) ->
+  (forall v, In v (sel_alts n L) -> str_eqb v RE_EMPTY = false) ->
+  alt_sem (sel_alts n L) (lget s n) = true.
+Proof. exact selector_keeps_queried. Qed.
+Print Assumptions C05_selector_keeps_queried.
 
 (* ... and NOT in general (known finding selector-matcher-rejects-own-label): with kept sets
    {a="1"} and {b="2"} the matchers are a=~"1|^$", b=~"2|^$"; a series {a="1", b="3"} of the
